@@ -170,6 +170,13 @@ impl<K> RodeoResolver<K> {
         key.into_usize() < self.strings.len()
     }
 
+    /// Read-only view of the arena's layout
+    #[cfg(lasso_verif)]
+    #[doc(hidden)]
+    pub fn verif_audit(&self) -> crate::verif::ArenaAudit {
+        self.__arena.verif_audit()
+    }
+
     /// Gets the number of interned strings
     ///
     /// # Example
